@@ -57,12 +57,18 @@ pub struct Prepared {
 
 /// Decode a WorldCase into a parsed, component-valid world for its backend.
 pub fn prepare(c: &WorldCase) -> Option<Prepared> {
+    prepare_with(c, |_| {})
+}
+
+/// like `prepare`, with a further restriction of the generation profile
+pub fn prepare_with(c: &WorldCase, tweak: impl FnOnce(&mut witgen::Profile)) -> Option<Prepared> {
     let backend = BACKENDS[c.backend as usize % BACKENDS.len()];
     let vars = backends::variants(backend);
     let (variant, args) = vars[c.variant as usize % vars.len()].clone();
     static KNOWN: std::sync::OnceLock<Vec<String>> = std::sync::OnceLock::new();
     let known = KNOWN.get_or_init(backends::all_known_sigs);
-    let profile = backends::profile_excluding_known(backend, variant, known);
+    let mut profile = backends::profile_excluding_known(backend, variant, known);
+    tweak(&mut profile);
     let w = witgen::generate(&c.tape, &profile);
     let text = w.to_text();
     let wname = witgen::wit_name(&w.world);
@@ -202,7 +208,7 @@ pub fn run(check: &mut Check) {
             }
         });
     }
-    let cases = check.tier.pick(16_000, 300_000);
+    let cases = check.tier.pick(40_000, 400_000);
     check.prop(
         "worlds",
         || (tape_strategy(900), any::<u8>(), any::<u8>()).prop_map(|(tape, backend, variant)| WorldCase { tape, backend, variant }),
